@@ -58,6 +58,11 @@ pub struct Hist<'a> {
     pub stats: BTreeMap<String, u64>,
     /// faucet transactions generated so far in this history (for replays)
     pub faucets_seen: Vec<Transaction>,
+    /// candidates of the batch generated last: (transaction, the coins it spends), promoted to `spent_in_block` when the
+    /// batch is accepted
+    pub pending_spenders: Vec<(Transaction, Vec<WCoin>)>,
+    /// transactions accepted earlier in the block being built, with the coins they spent (those coins are gone now)
+    pub spent_in_block: Vec<(Transaction, Vec<WCoin>)>,
 }
 
 impl<'a> Hist<'a> {
@@ -730,6 +735,46 @@ impl<'a> Hist<'a> {
                 self.faucets_seen.push(t.clone());
             }
         }
+        // a coin spent by an earlier batch of this very block is spent again (by a different transaction): the coin is
+        // gone from the state although its creator may sit in the block's transaction set
+        if em.mutate > 0 && !self.spent_in_block.is_empty() && r.chance(1, 4) {
+            let (t0, ins) = r.pick(&self.spent_in_block).clone();
+            let mut t = t0.clone();
+            if let Some(o) = t.outputs.iter_mut().find(|o| o.denom == Denom::Mel && o.value.0 > 0) {
+                o.value = CoinValue(o.value.0 - 1);
+                t.fee = CoinValue(t.fee.0 + 1);
+                sign(&self.wallet, &mut t, &ins);
+                self.w.names.reg_tx(&t);
+                let pos = r.below(txs.len() as u64 + 1) as usize;
+                txs.insert(pos, t);
+                labels.push("respends-coin-spent-earlier-in-block".into());
+            }
+        }
+        // remember which coins the members of this batch spend (used if the batch is accepted)
+        {
+            let p0 = self.parts(name);
+            let cm = CoinMapping::new(p0.coins.clone());
+            let mut known = self.wallet.coins(&cm, &self.w.names);
+            for other in txs.iter() {
+                for (i, oc) in other.outputs.iter().enumerate() {
+                    if let Some(spec) = self.wallet.specs.get(&oc.covhash) {
+                        let mut cd = oc.clone();
+                        if cd.denom == Denom::NewCustom {
+                            cd.denom = Denom::Custom(other.hash_nosigs());
+                        }
+                        known.push(WCoin { id: other.output_coinid(i as u8), cdh: CoinDataHeight { coin_data: cd, height: p0.height }, spec: spec.clone() });
+                    }
+                }
+            }
+            self.pending_spenders = txs
+                .iter()
+                .filter(|t| !t.inputs.is_empty() && t.kind != TxKind::Faucet)
+                .filter_map(|t| {
+                    let ins: Vec<WCoin> = t.inputs.iter().filter_map(|i| known.iter().find(|c| c.id == *i).cloned()).collect();
+                    (ins.len() == t.inputs.len()).then(|| (t.clone(), ins))
+                })
+                .collect();
+        }
         // the grandfathered faucet in company: whatever exemption it enjoys is its own
         if em.faucets >= 30 && r.chance(1, 8) {
             let g = grandfathered_faucet();
@@ -1015,11 +1060,146 @@ fn script_liquidity_ceiling(h: &mut Hist, r: &mut Rng) {
     h.bump("history:liquidity-ceiling-script");
 }
 
+/// A scripted history across the TIP-902 activation: before it the ERG/SYM pool is an ordinary pool; a user opens it,
+/// withdraws everything again (or not), and the chain seals on through the activation height, where the pool becomes a
+/// built-in that pegging reads its price from.
+fn script_ergsym_before_tip902(h: &mut Hist, r: &mut Rng) {
+    let a0 = h.wallet.spec_addr(CovSpec::StdNew(0));
+    let (network, height) = if r.chance(1, 2) { (NetID::Testnet, 496u64) } else { (NetID::Mainnet, 179_996u64) };
+    let mut coins = vec![];
+    for i in 0..6u8 {
+        let denom = match i {
+            4 => Denom::Sym,
+            5 => Denom::Erg,
+            _ => Denom::Mel,
+        };
+        coins.push((CoinID::new(TxHash(tmelcrypt::hash_keyed(b"t902coin", [i])), 0), CoinDataHeight { coin_data: crate::txgen::out(a0, 1_000_000_000_000, denom), height: BlockHeight(height - 3) }));
+    }
+    let pl = |l: u128, rr: u128, q: u128| PoolState { lefts: l, rights: rr, price_accum: 0, liqs: q };
+    let spec = FabSpec {
+        network,
+        height,
+        fee_pool: 1 << 20,
+        fee_multiplier: 0,
+        dosc_speed: 1_000_000,
+        coins: coins.clone(),
+        pools: vec![(PoolKey::new(Denom::Mel, Denom::Sym), pl(2_000_000_000, 3_000_000_000, 1_000_000_000)), (PoolKey::new(Denom::Mel, Denom::Erg), pl(2_000_000_000, 3_000_000_000, 1_000_000_000))],
+        stakes: vec![],
+        history: vec![(height - 1, 1_000_000), (height - 2, 1_000_000)],
+    };
+    let s0 = h.op_fab(&spec);
+    let Some(mut u) = h.op_next(&s0) else { return };
+    let wc: Vec<WCoin> = coins.into_iter().map(|(id, cdh)| WCoin { id, cdh, spec: CovSpec::StdNew(0) }).collect();
+    let key = PoolKey::new(Denom::Erg, Denom::Sym);
+    h.w.names.reg_poolkey(key);
+    let (l, rr) = (key.left(), key.right());
+    let coin_of = |d: Denom| if d == Denom::Sym { wc[4].clone() } else { wc[5].clone() };
+    let amount = *r.pick(&[1u128, 1000, 1_000_000_000]);
+    let ins = vec![coin_of(l), coin_of(rr), wc[0].clone()];
+    let outs = vec![crate::txgen::out(a0, amount, l), crate::txgen::out(a0, amount, rr), crate::txgen::out(a0, 1_000_000_000_000 - amount, l), crate::txgen::out(a0, 1_000_000_000_000 - amount, rr), crate::txgen::out(a0, 1_000_000_000_000, Denom::Mel)];
+    let dep = assemble(&h.wallet, TxKind::LiqDeposit, &ins, outs, 0, key.to_bytes().to_vec());
+    h.w.names.reg_tx(&dep);
+    let Some(u1) = h.op_batch(&u, &[dep.clone()], "t902:open-ergsym") else { return };
+    let Some(s1) = h.op_seal(&u1, None) else { return };
+    let Some(u2) = h.op_next(&s1) else { return };
+    u = u2;
+    // withdraw everything, a part, or nothing
+    let liqc = h.w.sealed.get(&s1).unwrap().coin(dep.output_coinid(0));
+    if let Some(liqc) = liqc {
+        let part = match r.below(4) {
+            0 => 0,
+            1 => liqc.coin_data.value.0 / 2,
+            _ => liqc.coin_data.value.0,
+        };
+        if part > 0 && liqc.coin_data.denom == key.liq_token_denom() {
+            let liqw = WCoin { id: dep.output_coinid(0), cdh: liqc.clone(), spec: CovSpec::StdNew(0) };
+            let mut outs = vec![crate::txgen::out(a0, part, liqc.coin_data.denom)];
+            let whole = part == liqc.coin_data.value.0;
+            if !whole {
+                // a withdrawal request has one output only: split first in a real chain; here simply burn the rest
+                outs = vec![crate::txgen::out(a0, part, liqc.coin_data.denom)];
+            }
+            if whole {
+                let feec = wc[1].clone();
+                let wd = assemble(&h.wallet, TxKind::LiqWithdraw, &[feec.clone(), liqw], outs, feec.cdh.coin_data.value.0, key.to_bytes().to_vec());
+                h.w.names.reg_tx(&wd);
+                if let Some(u3) = h.op_batch(&u, &[wd], "t902:withdraw-everything") {
+                    u = u3;
+                }
+            }
+        }
+    }
+    // seal on through the activation height
+    for _ in 0..4 {
+        let Some(s) = h.op_seal(&u, None) else { return };
+        let Some(nu) = h.op_next(&s) else { return };
+        u = nu;
+    }
+    h.bump("history:ergsym-before-tip902-script");
+}
+
+/// A scripted history with one big block: a chain of `n` transactions each spending the previous one's output (locked
+/// by the always-true covenant), applied one at a time, sealed, and then offered as a block to the parent — whose
+/// `apply_block` sees them as an unordered set of more than 256 members with dependencies all over it.
+fn script_big_block(h: &mut Hist, r: &mut Rng) {
+    let at = h.wallet.spec_addr(CovSpec::AlwaysTrue);
+    let cfg = GenesisConfig {
+        network: *r.pick(&[NetID::Custom02, NetID::Custom08]),
+        init_coindata: crate::txgen::out(at, 1u128 << 60, Denom::Mel),
+        stakes: BTreeMap::new(),
+        init_fee_pool: CoinValue(0),
+        init_fee_multiplier: 0,
+    };
+    let u0 = h.op_genesis(cfg);
+    let Some(s0) = h.op_seal(&u0, None) else { return };
+    let Some(mut u) = h.op_next(&s0) else { return };
+    let n = 257 + r.below(60) as usize;
+    let mut prev = WCoin { id: CoinID::zero_zero(), cdh: CoinDataHeight { coin_data: crate::txgen::out(at, 1u128 << 60, Denom::Mel), height: BlockHeight(0) }, spec: CovSpec::AlwaysTrue };
+    let height = h.parts(&u).height;
+    let mut all = vec![];
+    for i in 0..n {
+        let v = prev.cdh.coin_data.value.0;
+        let tx = assemble(&h.wallet, TxKind::Normal, &[prev.clone()], vec![crate::txgen::out(at, v, Denom::Mel)], 0, vec![(i % 251) as u8, (i / 251) as u8]);
+        h.w.names.reg_tx(&tx);
+        prev = WCoin { id: tx.output_coinid(0), cdh: CoinDataHeight { coin_data: tx.outputs[0].clone(), height }, spec: CovSpec::AlwaysTrue };
+        all.push(tx);
+    }
+    // applied in three batches (the last one in reverse order): the state is the same however they arrive
+    let (a, rest) = all.split_at(n / 3);
+    let (b, c) = rest.split_at(n / 3);
+    let mut c: Vec<Transaction> = c.to_vec();
+    c.reverse();
+    for (part, label) in [(a.to_vec(), "bigblock:first"), (b.to_vec(), "bigblock:second"), (c, "bigblock:third-reversed")] {
+        match h.op_batch(&u, &part, label) {
+            Some(nu) => u = nu,
+            None => return,
+        }
+    }
+    let Some(sealed) = h.op_seal(&u, None) else { return };
+    let blk = h.w.sealed.get(&sealed).unwrap().to_block();
+    // several times: the block's HashSet is re-hashed per clone, the verdict must not depend on its iteration order
+    for _ in 0..3 {
+        let copy = Block { header: blk.header, transactions: blk.transactions.iter().cloned().collect(), proposer_action: blk.proposer_action };
+        let _ = h.op_block(&s0, &copy, "honest");
+    }
+    h.bump("history:big-block-script");
+}
+
 /// one history
 pub fn history(r: &mut Rng, w: &mut World, out: &mut Out, em: &Emphasis, stats: &mut BTreeMap<String, u64>) {
-    let mut h = Hist { w, wallet: Wallet::new(), out, stats: BTreeMap::new(), faucets_seen: vec![] };
+    let mut h = Hist { w, wallet: Wallet::new(), out, stats: BTreeMap::new(), faucets_seen: vec![], pending_spenders: vec![], spent_in_block: vec![] };
     if em.pool_ops >= 10 && r.chance(1, 16) {
         script_liquidity_ceiling(&mut h, r);
+        merge(stats, &h.stats);
+        return;
+    }
+    if em.tip_edges > 0 && r.chance(1, 20) {
+        script_ergsym_before_tip902(&mut h, r);
+        merge(stats, &h.stats);
+        return;
+    }
+    if em.chain_ops && r.chance(1, 40) {
+        script_big_block(&mut h, r);
         merge(stats, &h.stats);
         return;
     }
@@ -1053,6 +1233,11 @@ pub fn history(r: &mut Rng, w: &mut World, out: &mut Out, em: &Emphasis, stats: 
             let (txs, label) = h.gen_batch(r, &unsealed, em);
             if let Some(next) = h.op_batch(&unsealed, &txs, &label) {
                 unsealed = next;
+                let p = std::mem::take(&mut h.pending_spenders);
+                h.spent_in_block.extend(p);
+                if h.spent_in_block.len() > 24 {
+                    h.spent_in_block.drain(0..8);
+                }
                 if let Some(sib) = sibling.clone() {
                     if let Some(n2) = h.op_batch(&sib, &txs, &format!("{}/on-sibling-fork", label)) {
                         sibling = Some(n2);
@@ -1061,6 +1246,7 @@ pub fn history(r: &mut Rng, w: &mut World, out: &mut Out, em: &Emphasis, stats: 
             }
         }
         sibling = None;
+        h.spent_in_block.clear();
         let height = h.parts(&unsealed).height.0;
         let action = rand_action(r, &mut h.wallet, height);
         // sealing the same state both ways is informative for tips/rewards
